@@ -123,8 +123,10 @@ def run(rep, tier):
         for st_, nw_ in itertools.product((True, False), repeat=2):
             A = {"START": st_, "NEW": nw_}
             val = None
+            # the explored-set count of the vertex is a number: 0 on the first visit of this traversal, 1 afterwards (decides `<= 1`, `< 1`, `> 0` forms)
+            cnt_sub = {Fn("count")(S("explored_"), S(pg + ".first")): sp.Integer(0 if nw_ else 1)}
             for e in dst:
-                x = executes(e, None, A, cls3, conds)
+                x = executes(e, cnt_sub, A, cls3, conds)
                 if x is None:
                     gtxt = " ".join(guard_strs(fd, e["guards"]))
                     if '"Dist"' in gtxt and "int_vals_" in gtxt:
